@@ -149,7 +149,7 @@ LANG_RULE = ("A: expression trees built by TLC (Gen_Lang): stage 1 = every one-c
              "operator; distinct = distinct tree. ")
 
 
-def lang_plan(ctx, props, san=False, extra_rule="", syntax=False):
+def lang_plan(ctx, props, san=False, extra_rule="", syntax=False, sample_m=0):
     b = vcore.build(san=san)
     h = hbin(b, "h_lang")
     ctx.rule = LANG_RULE + extra_rule
@@ -162,6 +162,10 @@ def lang_plan(ctx, props, san=False, extra_rule="", syntax=False):
     ctx.replay("Gen_Lang.tla", "Gen_Lang_q.cfg", h, ["--props", ",".join(props)], tag=pre + "Gen_Lang_q", timeout=1500, xss="64m", xmx="12g")
     if not ctx.quick:
         ctx.replay("Gen_Lang.tla", "Gen_Lang_m.cfg", h, ["--props", ",".join(props)], tag=pre + "Gen_Lang_m", timeout=3400, xss="64m", xmx="12g")
+    elif sample_m:
+        # quick tier: a hash sample (1 in sample_m, chosen by VERIF_SEED) of the two-constructor trees
+        ctx.replay("Gen_Lang.tla", "Gen_Lang_m.cfg", h, ["--props", ",".join(props), "--sample", str(sample_m)], tag=pre + "Gen_Lang_m-sample", timeout=3400, xss="64m", xmx="12g")
+        ctx.constants["quick"] += " + 1/%d hash sample of Gen_Lang_m (two-constructor trees)" % sample_m
     ctx.exhaustive = True
 
 
@@ -180,13 +184,13 @@ def plan_C05(ctx):
 def plan_C03(ctx):
     ctx.assumptions = ["error codes and positions inside the expression are not compared (drift level)",
                        "value class and declared arguments of function definitions are not yet covered by the generator"]
-    lang_plan(ctx, ["C03"], extra_rule="C03 compares the verdict and the typification string with RSTyping.TypeOf.")
+    lang_plan(ctx, ["C03"], sample_m=24, extra_rule="C03 compares the verdict and the typification string with RSTyping.TypeOf.")
 
 
 def plan_C01(ctx):
     ctx.assumptions = ["an implementation outcome is admissible iff it equals the kleene value or it is a failure where the strict "
                        "evaluation fails (RSEval.Admissible); recursions the model cannot finish within its fuel are skipped and counted"]
-    lang_plan(ctx, ["C01"], extra_rule="C01 compares every evaluation outcome with RSEval (strict / kleene).")
+    lang_plan(ctx, ["C01"], sample_m=24, extra_rule="C01 compares every evaluation outcome with RSEval (strict / kleene).")
 
 
 def plan_C02(ctx):
@@ -397,6 +401,11 @@ def plan_C11(ctx):
                        "the second oracle of the statement (RecalculateAll on a reloaded copy) is used only when all base sets carry keys 1..n (known finding K3 renumbers other keys on reload)"]
     model_stage(ctx, ["C11"])
     ctx.exhaustive = True
+    ctx.rule += ("B: random histories of 40 calls (schema edits with mostly well-typed definitions, interpretation changes, structure data, "
+                 "Calculate / RecalculateAll) recorded from a real RSModel and validated call by call by Trace_Model: every shown calculated "
+                 "value equals Model.tla's Fresh. ")
+    ntr = 30 if ctx.quick else 300
+    trace_stage(ctx, hbin(vcore.build(), "h_model"), ["--record", str(ntr), "--steps", "40"], "Trace_Model.tla", "Trace_Model.cfg", n_traces=ntr)
 
 
 def plan_C10(ctx):
@@ -434,7 +443,7 @@ HARNESS_OF = {"C14": "h_graph", "C20": "h_strings", "C16": "h_sdcompact", "C15":
 TRACE_SPEC_OF = {"C14": ("Trace_C14.tla", "Trace_C14.cfg"), "C20": ("Trace_C20.tla", "Trace_C20.cfg"),
                  "C16": ("Trace_C16.tla", "Trace_C16.cfg"), "C15": ("Trace_C15.tla", "Trace_C15.cfg"),
                  "C17": ("Trace_C17.tla", "Trace_C17.cfg"), "C04": ("Trace_C04.tla", "Trace_C04.cfg"),
-                 "C13": ("Trace_Schema.tla", "Trace_Ops.cfg"), "C19": ("Trace_OSS.tla", "Trace_OSS.cfg"), "C07": ("Trace_Schema.tla", "Trace_Schema.cfg"), "C09": ("Trace_Schema.tla", "Trace_Schema.cfg")}
+                 "C13": ("Trace_Schema.tla", "Trace_Ops.cfg"), "C19": ("Trace_OSS.tla", "Trace_OSS.cfg"), "C11": ("Trace_Model.tla", "Trace_Model.cfg"), "C07": ("Trace_Schema.tla", "Trace_Schema.cfg"), "C09": ("Trace_Schema.tla", "Trace_Schema.cfg")}
 
 
 def replay(pid, path):
